@@ -80,6 +80,14 @@ struct Group {
   Real difft(const Vec& a, const Vec& b, Real lin) const;
   // Jacobian (DoF x DoF): rows/cols scaled (linear rows divided by lin, linear cols multiplied by lin)
   Real diffJ(const Mat& A, const Mat& B, Real lin) const;
+  // componentwise (term-aware) residual of a product of two embedded elements, evaluated on the entries OUTSIDE the rotation
+  // blocks: max_ij |P_ij - (AB)_ij| / sum_k (|A_ik| + rot(i,k)) (|B_kj| + rot(k,j)).  The rotation entries of A and B carry an
+  // ABSOLUTE rounding error of one unit (they come from a unit quaternion / complex number), hence the +rot terms; every other
+  // entry is an input.  Any evaluation that computes each term of each entry to working precision passes with a small constant;
+  // a term that is dropped or mis-scaled fails even when it is small compared with the largest entry of the matrix.
+  Real diff_prod_terms(const Mat& A, const Mat& B, const Mat& P) const;
+  // same idea for the action on a point: max_i |y_i - (M h)_i| / sum_k (|M_ik| + rot(i,k)) |h_k|, h = documented homogeneous embedding of p
+  Real diff_act_terms(const Mat& M, const Vec& p, const Vec& y) const;
 };
 
 Mat expm(const Mat& A);
